@@ -1758,7 +1758,18 @@ def _register_prune(reg):
 
 # ---------------------------------------------------------------------------------------------------
 # get_from_proof (C03, soundness): whatever list of well-formed nodes is offered as a proof, the call either returns
-# the value the root denotes for the key or raises BadTrieProof
+# the value the root denotes for the key or raises BadTrieProof.  (C03, the consumer's half of completeness): it raises
+# BadTrieProof only while handling a MissingTrieNode whose hash is *not* the hash of any offered node (arbitrary ghost
+# position gj!proof of the proof) and which sits on the key's path below the claimed root (view equation for an
+# arbitrary continuation) -- so a proof that holds every hashed node of the key's path is accepted.
+
+PN = z3.Function("proof_node", z3.IntSort(), HNode)          # the i-th offered node, in the datatype view
+GJP = z3.Int("gj!proof")                                     # ghost: an arbitrary position of the proof
+
+
+def offered_hash(j):
+    return specfn.keccak(z3.simplify(HM.rlpenc(PN(j))))
+
 
 class ProofNodes:
     """an arbitrary finite sequence of well-formed raw nodes (the `proof` argument): each iteration of the loop over
@@ -1772,7 +1783,7 @@ class ProofNodes:
         return self.n
 
     def py_iter_elem(self, E, i):
-        D = z3.Const(E.fresh_name("proofnode.D"), HNode)
+        D = PN(as_int_term(i))
         E.assume(mk_bool(z3.And(HM.hwfp(D), z3.Not(HNode.is_HBlank(D)))))
         HM.unfold_wf(E, D)
         return HM.materialize(E, D)
@@ -1783,6 +1794,7 @@ class ProofNodes:
 
 def gfp_setup(E):
     E.ghost["hex_model"] = True
+    E.ghost["ks"] = HM.nibs(E, "ks").t      # ghost continuation of the key (the missing node is on the key's path)
     return {"cls": objs.cls_of(E, "trie.hexary", "HexaryTrie"), "root_hash": objs.hash32(E, "root_hash"),
             "key": E.fresh_seq("key", "bytes"), "proof": ProofNodes(E)}
 
@@ -1791,9 +1803,25 @@ def gfp_cases(E, ctx):
     from contracts.nibbles_c import B2N
     root = HM.bytes_of(ctx.root_hash)
     K = B2N(ops.seq_term_as(ctx.key, "int"))
-    want = HM.hlk(node_of_root(E, root), K)
+    D0 = node_of_root(E, root)
+    want = HM.hlk(D0, K)
+    n = as_int_term(ctx.proof.n)
+    ks = E.ghost["ks"]
+
+    def withheld(e):
+        m = getattr(e, "context", None)
+        if not (isinstance(m, ExcObj) and m.cls is objs.exc(E, "MissingTrieNode") and len(m.args) >= 4):
+            return [("raised-while-handling-a-MissingTrieNode", False)]
+        h = HM.bytes_of(m.args[0])
+        used = ops.seq_term_as(m.args[3], "int")
+        rest = z3.Concat(HM.tail(K, z3.Length(used)), ks)
+        return [("raised-while-handling-a-MissingTrieNode", True),
+                ("no-offered-node-is-the-missing-one",
+                 mk_bool(z3.Implies(z3.And(GJP >= 0, GJP < n), offered_hash(GJP) != h))),
+                ("the-missing-node-is-on-the-key's-path",
+                 mk_bool(HM.hlk(D0, z3.Concat(K, ks)) == HM.hlk(HM.hnode_of_hash(h), rest)))]
     return [Case("proven-value", returns=lambda: SSeq(want, "bytes")),
-            Case("bad-proof", raises=objs.exc(E, "BadTrieProof"))]
+            Case("bad-proof", raises=objs.exc(E, "BadTrieProof"), exc=withheld)]
 
 
 def gfp_inv(E, fr, i):
@@ -1807,7 +1835,10 @@ def gfp_inv(E, fr, i):
         x = z3.Const("x!empty", SeqI)
         out.append(("scratch-database-starts-empty", mk_bool(z3.ForAll([x], z3.Not(z3.Select(db.has, x))))))
         db.hooks = HM.HexDbInvariant()
-    return out + [("scratch-trie-does-not-prune", trie.fields.get("is_pruning") is False)]
+    it = as_int_term(i)
+    return out + [("scratch-trie-does-not-prune", trie.fields.get("is_pruning") is False),
+                  ("offered-nodes-so-far-are-in-the-scratch-database",
+                   mk_bool(z3.Implies(z3.And(GJP >= 0, GJP < it), z3.Select(db.has, offered_hash(GJP)))))]
 
 
 def _register_proof(reg):
